@@ -53,9 +53,10 @@ type ctx = {
   mutable used_names : int list;      (* reversed *)
   mutable sp : float specState;
   mutable srefs : int list;           (* reversed; node index or -1 *)
-  mutable ext : Obj.t option;
+  mutable crows : float cRow list;          (* constraint rows, in order *)
+  mutable srows : float sRow list;
 }
-let new_ctx () = { m = model0 fo; ids = []; used_names = []; sp = spec0; srefs = []; ext = None }
+let new_ctx () = { m = model0 fo; ids = []; used_names = []; sp = spec0; srefs = []; crows = []; srows = [] }
 let nth_rev l k = List.nth (List.rev l) k
 let ref_id c s =
   if s = "base" then 0 else if s = "prev" then int_of_n c.m.prev_id
@@ -191,6 +192,145 @@ let dump_kin c seq =
 
 let setw c w = c.m <- set_ws c.m w
 let gzero n = mzeros 0. (nat_of_int n)
+
+(* solve the consistent symmetric system A y = b by elimination with full pivoting; pivots below
+   1e-9 * max|A| are treated as zero and their unknowns set to zero (same procedure as the C++ driver) *)
+let solve_consistent (al : float list list) (bl : float list) : float list =
+  let a = Array.of_list (List.map Array.of_list al) and b = Array.of_list bl in
+  let n = Array.length b in
+  let colp = Array.init n (fun i -> i) in
+  let amax = ref 0. in
+  for i = 0 to n - 1 do for j = 0 to n - 1 do amax := max !amax (abs_float a.(i).(j)) done done;
+  let thr = 1e-9 *. !amax in
+  let rank = ref 0 in
+  (try
+    for k = 0 to n - 1 do
+      let pi = ref k and pj = ref k and best = ref (-1.) in
+      for i = k to n - 1 do for j = k to n - 1 do
+        if abs_float a.(i).(j) > !best then (best := abs_float a.(i).(j); pi := i; pj := j) done done;
+      if !best <= thr then raise Exit;
+      let tr = a.(k) in a.(k) <- a.(!pi); a.(!pi) <- tr;
+      let tb = b.(k) in b.(k) <- b.(!pi); b.(!pi) <- tb;
+      for i = 0 to n - 1 do let x = a.(i).(k) in a.(i).(k) <- a.(i).(!pj); a.(i).(!pj) <- x done;
+      let tc = colp.(k) in colp.(k) <- colp.(!pj); colp.(!pj) <- tc;
+      for i = k + 1 to n - 1 do
+        let d = a.(i).(k) /. a.(k).(k) in
+        for j = k to n - 1 do a.(i).(j) <- a.(i).(j) -. d *. a.(k).(j) done;
+        b.(i) <- b.(i) -. d *. b.(k) done;
+      rank := k + 1
+    done with Exit -> ());
+  let z = Array.make n 0. in
+  for i = !rank - 1 downto 0 do
+    let s = ref b.(i) in
+    for j = i + 1 to !rank - 1 do s := !s -. a.(i).(j) *. z.(j) done;
+    z.(i) <- !s /. a.(i).(i) done;
+  let y = Array.make n 0. in
+  for i = 0 to n - 1 do y.(colp.(i)) <- z.(i) done;
+  Array.to_list y
+
+(* ---------- constraint commands ---------- *)
+let baum_of (r : float cRow) err errd = match r with
+  | RLoop (_, _, _, _, _, true, ts) -> let k = 1. /. ts in -. 2. *. k *. errd -. k *. k *. err
+  | _ -> 0.
+let dotl a b = List.fold_left2 (fun acc x y -> acc +. x *. y) 0. a b
+let maxabs l = List.fold_left (fun a x -> max a (abs_float x)) 0. l
+let cons_cmd c cmd t seq =
+  let m = c.m in
+  let n_qd = int_of_nat m.qdot_size in
+  let nn = nat_of_int n_qd in
+  let spec_ok = List.length c.srows = List.length c.crows in
+  let jets q qd qdd = spec_phi_jets fo c.sp.snodes c.sp.ssph c.sp.sndof q qd qdd c.srows in
+  let spec_G q = (* rows: d phi / d qd_k *)
+    let cols = List.init n_qd (fun k -> List.map (fun j -> j.j1) (jets q (unit n_qd k) (zeros n_qd))) in
+    mTn fo cols (nat_of_int (List.length c.crows)) in
+  let spec_try f = if spec_ok then (try f () with Not_found | Failure _ | Invalid_argument _ -> ()) in
+  (* velocity consistent with the constraints: qd - G^T (G G^T)^-1 G qd, with the model's own G *)
+  let project q qd =
+    let w = ukc_q fo c.m c.m.ws q in
+    let g = cons_G fo c.m w c.crows in
+    let mm = nat_of_int (List.length c.crows) in
+    let a = mmmul fo g (mTn fo g nn) mm in
+    let y = solve_consistent a (mvmul fo g qd) in
+    List.map2 (fun x d -> x -. d) qd (mTvmul fo g nn y) in
+  match cmd with
+  | "cjac" ->
+    let flag = integer t <> 0 in let q = vec t in
+    let w = if flag then ukc_q fo m m.ws q else m.ws in
+    setw c w; line "o" seq "G" (fun () -> omat (cons_G fo c.m w c.crows));
+    spec_try (fun () -> line "s" seq "G" (fun () -> omat (spec_G q)))
+  | "cerr" ->
+    let flag = integer t <> 0 in let q = vec t in
+    let w = if flag then ukc_q fo m m.ws q else m.ws in
+    setw c w; line "o" seq "err" (fun () -> ovec (List.map (cons_row_err fo c.m w) c.crows));
+    spec_try (fun () -> line "s" seq "err" (fun () ->
+      List.iter2 (fun r j -> od (match r with RContact _ -> 0. | _ -> j.j0)) c.crows (jets q (zeros n_qd) (zeros n_qd))))
+  | "cverr" ->
+    let flag = integer t <> 0 in let q = vec t in let qd = vec t in
+    (* CalcConstraintsVelocityError: Jacobian (with the position update when the flag is set); the contact rows read the
+       body velocities of the workspace *)
+    let w = if flag then ukc_q fo m m.ws q else m.ws in
+    let w = if flag then ukc_qd fo c.m w q qd else w in
+    setw c w;
+    let g = cons_G fo c.m w c.crows in
+    line "o" seq "errd" (fun () -> List.iteri (fun k r -> od (cons_row_errd fo c.m w qd g (nat_of_int k) r)) c.crows);
+    spec_try (fun () -> line "s" seq "errd" (fun () -> List.iter (fun j -> od j.j1) (jets q qd (zeros n_qd))))
+  | "csys" ->
+    let feas = (t.t.(t.i) = "feas") in if feas then ignore (str t);
+    let q = vec t in let qd0 = vec t in let _tau = vec t in let fe = fext t in
+    let qd = if feas then project q qd0 else qd0 in
+    let (w, sy) = calc_constrained_system_variables fo m m.ws q qd c.crows true fe in
+    setw c w;
+    line "o" seq "H" (fun () -> omat sy.cH); line "o" seq "C" (fun () -> ovec sy.cC);
+    line "o" seq "G" (fun () -> omat sy.cG); line "o" seq "gamma" (fun () -> ovec sy.cgamma);
+    line "o" seq "err" (fun () -> ovec sy.cerr); line "o" seq "errd" (fun () -> ovec sy.cerrd);
+    spec_try (fun () ->
+      let js = jets q qd (zeros n_qd) in
+      line "s" seq "H" (fun () -> omat (spec_H c q));
+      line "s" seq "C" (fun () -> ovec (spec_tau c m.gravity q qd (zeros n_qd) fe));
+      line "s" seq "G" (fun () -> omat (spec_G q));
+      line "s" seq "gamma" (fun () -> List.iter2 (fun r j -> od (-. j.j2 +. baum_of r (match r with RContact _ -> 0. | _ -> j.j0) j.j1)) c.crows js);
+      line "s" seq "errd" (fun () -> List.iter (fun j -> od j.j1) js))
+  | "fdc" ->
+    let _meth = str t in
+    let feas = (t.t.(t.i) = "feas") in if feas then ignore (str t);
+    let q = vec t in let qd0 = vec t in let tau = vec t in let fe = fext t in
+    let qd = if feas then project q qd0 else qd0 in
+    let ((w, sy), sol) = forward_dynamics_constraints fo m m.ws q qd tau c.crows fe in
+    setw c w;
+    (match sol with
+     | Some (qdd, lam) ->
+       line "o" seq "qdd" (fun () -> ovec qdd); line "o" seq "force" (fun () -> ovec lam);
+       line "i" seq "cond" (fun () -> od (max (cond_est sy.cH) (cond_est (kkt_matrix fo sy.cH sy.cG nn (nat_of_int (List.length c.crows))))));
+       spec_try (fun () ->
+         (* independent residuals: equation of motion with the L3 inverse dynamics, and the measured
+            second derivative of every constraint function along the returned acceleration *)
+         let tn = spec_tau c m.gravity q qd qdd fe in
+         let g = spec_G q in
+         let gtl = mTvmul fo g nn lam in
+         let res = List.map2 (fun a b -> a -. b) (List.map2 (fun a b -> a -. b) tn tau) gtl in
+         line "c" seq "fdc_motion" (fun () -> od (maxabs res); od (maxabs (tau @ tn @ gtl)));
+         let js = jets q qd qdd in
+         let r2 = List.map2 (fun r j -> j.j2 -. baum_of r (match r with RContact _ -> 0. | _ -> j.j0) j.j1) c.crows js in
+         line "c" seq "fdc_constraint_acc" (fun () -> od (maxabs r2); od (maxabs (List.map (fun j -> j.j2) js) +. maxabs qdd)))
+     | None -> line "o" seq "qdd" (fun () -> os "singular"))
+  | "imp" ->
+    let _meth = str t in let q = vec t in let qdm = vec t in let vp = vec t in
+    let (w, sol) = constraint_impulses fo m m.ws q qdm c.crows vp in
+    setw c w;
+    (match sol with
+     | Some (qdp, lam) ->
+       line "o" seq "qdplus" (fun () -> ovec qdp); line "o" seq "impulse" (fun () -> ovec lam);
+       spec_try (fun () ->
+         let h = spec_H c q in let g = spec_G q in
+         line "i" seq "cond" (fun () -> od (max (cond_est h) (cond_est (kkt_matrix fo h g nn (nat_of_int (List.length c.crows))))));
+         let gq = mvmul fo g qdp in
+         line "c" seq "imp_feasible" (fun () -> od (maxabs (List.map2 (fun a b -> a -. b) gq vp)); od (maxabs (gq @ vp)));
+         let hd = mvmul fo h (List.map2 (fun a b -> a -. b) qdp qdm) in let gtl = mTvmul fo g nn lam in
+         line "c" seq "imp_momentum" (fun () -> od (maxabs (List.map2 (fun a b -> a +. b) hd gtl)); od (maxabs (hd @ gtl)));
+         let ke v = 0.5 *. dotl v (mvmul fo h v) in
+         if maxabs vp = 0. then line "c" seq "imp_energy" (fun () -> od (max 0. (ke qdp -. ke qdm)); od (ke qdm)))
+     | None -> line "o" seq "qdplus" (fun () -> os "singular"))
+  | _ -> ()
 
 let run_line c (l : string) seq =
   let t = toks l in
@@ -456,6 +596,36 @@ let run_line c (l : string) seq =
           | "xrot" -> let ang = num t in ost (xrot fo ang (v3 t))
           | "gauss" -> let n = integer t in let a = List.init n (fun _ -> List.init n (fun _ -> num t)) in let b = vec t in ovec (gauss_elim_pivot fo a b)
           | _ -> os "unknown-op")
+      | "csolver" -> ignore (integer t)
+      | "contact" ->
+        let rs = str t in let id = ref_id c rs in let p = v3 t in let nr = v3 t in
+        c.crows <- c.crows @ [RContact (n_of_int id, p, nr)];
+        (try c.srows <- c.srows @ [SContact (ref_node c rs, p, nr)] with Not_found -> ())
+      | "loop" | "loopauto" ->
+        let rp = str t in let rsn = str t in let idp = ref_id c rp in let ids = ref_id c rsn in
+        let ep = m3 t in let rpv = v3 t in
+        let xp = { stE = ep; str = rpv } in
+        let xs0 = if cmd = "loop" then (let es = m3 t in let rsv = v3 t in { stE = es; str = rsv }) else xp in
+        let off = if cmd = "loopauto" then v3 t else zero3 in
+        let nax = integer t in let axs = List.init nax (fun _ -> sv t) in
+        let baum = integer t <> 0 in let ts = num t in
+        let xs = if cmd = "loop" then xs0 else begin
+            let q0 = vec t in
+            let w = ukc_q fo m m.ws q0 in
+            setw c w;
+            let m3v a v = { vx = a.m00 *. v.vx +. a.m01 *. v.vy +. a.m02 *. v.vz; vy = a.m10 *. v.vx +. a.m11 *. v.vy +. a.m12 *. v.vz;
+                            vz = a.m20 *. v.vx +. a.m21 *. v.vy +. a.m22 *. v.vz } in
+            let m3mul a b = let col k = m3v a (match k with 0 -> { vx = b.m00; vy = b.m10; vz = b.m20 } | 1 -> { vx = b.m01; vy = b.m11; vz = b.m21 } | _ -> { vx = b.m02; vy = b.m12; vz = b.m22 }) in
+              let c0 = col 0 and c1 = col 1 and c2 = col 2 in
+              { m00 = c0.vx; m01 = c1.vx; m02 = c2.vx; m10 = c0.vy; m11 = c1.vy; m12 = c2.vy; m20 = c0.vz; m21 = c1.vz; m22 = c2.vz } in
+            let rpm = m3t (world_orient fo c.m w (n_of_int idp)) and pp = b2b fo c.m w (n_of_int idp) zero3 in
+            let rsm = m3t (world_orient fo c.m w (n_of_int ids)) and ps = b2b fo c.m w (n_of_int ids) zero3 in
+            let ra_m = m3mul rpm ep in let ra = v3add pp (m3v rpm rpv) in
+            { stE = m3mul (m3t rsm) ra_m; str = m3v (m3t rsm) (v3sub (v3add ra (m3v ra_m off)) ps) } end in
+        List.iter (fun ax ->
+          c.crows <- c.crows @ [RLoop (n_of_int idp, n_of_int ids, xp, xs, ax, baum, ts)];
+          (try c.srows <- c.srows @ [SLoop (ref_node c rp, ref_node c rsn, xp, xs, ax)] with Not_found -> ())) axs
+      | "cjac" | "cerr" | "cverr" | "csys" | "fdc" | "imp" -> cons_cmd c cmd t seq
       | _ -> if not (!ext_cmd c cmd t seq) then line "o" seq "unknown" (fun () -> os cmd)
     with Failure _ | Invalid_argument _ | Not_found -> line "o" seq "status" (fun () -> os "exception")
   end
